@@ -173,3 +173,99 @@ Definition pth_raises_overlong_u (t : pth_tok) : bool :=
   match t with PT_pctu hi _ | PT_badu hi _ => hi =? 0 | _ => false end.
 Definition pth_raises_halffull (t : pth_tok) : bool :=
   match t with PT_pctu hi _ | PT_badu hi _ => hi =? 255 | _ => false end.
+
+(* ------------------------------------------------------------------ UTF-8 as the two path functions read it *)
+
+(* Well-formed sequences (overlong forms accepted, surrogates and code points above U+10FFFF not):
+     00..7F | C0..DF c | E0..EF c c (ED: second byte 80..9F) | F0..F4 c c c (F4: second byte 80..8F),   c = 80..BF.
+   A greedy tokeniser: at the head of the unread input stands an ASCII byte, a complete sequence, a byte that cannot
+   start a sequence / a sequence broken by a wrong byte (UT_bad), or a sequence cut off by the end of the input.
+   The two C functions differ in one point only: after a broken sequence htp_utf8_validate_path skips the offending
+   byte (eat = true), htp_utf8_decode_path_inplace reads it again as the start of the next character (eat = false). *)
+Inductive utf8_tok := UT_ascii (b : N) | UT_seq (n : nat) (cp : N) | UT_bad | UT_trunc.
+
+Definition utf8_in (lo hi b : N) : bool := (lo <=? b) && (b <=? hi).
+
+(* lead byte: sequence length, payload bits of the lead byte, upper end of the range allowed for the second byte *)
+Definition utf8_lead (b : N) : option (nat * N * N) :=
+  if b <? 192 then None
+  else if b <? 224 then Some (2%nat, N.land b 31, 191)
+  else if b <? 240 then Some (3%nat, N.land b 15, if b =? 237 then 159 else 191)
+  else if b <? 245 then Some (4%nat, N.land b 7, if b =? 244 then 143 else 191)
+  else None.
+
+Inductive utf8_res := UR_ok (cp : N) | UR_broken (seen : nat) | UR_end.
+(* k continuation bytes still expected, the next one in 80..hi; seen = bytes of the sequence read so far *)
+Fixpoint utf8_conts (k : nat) (hi cp : N) (rest : bytes) (seen : nat) : utf8_res :=
+  match k with
+  | O => UR_ok cp
+  | S k' =>
+    match rest with
+    | [] => UR_end
+    | b :: r => if utf8_in 128 hi b then utf8_conts k' 191 (N.lor (N.land b 63) (N.shiftl cp 6)) r (S seen)
+                else UR_broken seen
+    end
+  end.
+
+Definition utf8_lex1 (eat : bool) (rest : bytes) : utf8_tok * nat :=
+  match rest with
+  | [] => (UT_trunc, 1%nat)
+  | b0 :: r =>
+    if b0 <? 128 then (UT_ascii b0, 1%nat)
+    else match utf8_lead b0 with
+         | None => (UT_bad, 1%nat)
+         | Some (n, cp0, hi) =>
+           match utf8_conts (n - 1) hi cp0 r 1 with
+           | UR_ok cp => (UT_seq n cp, n)
+           | UR_broken seen => (UT_bad, if eat then S seen else seen)
+           | UR_end => (UT_trunc, length rest)
+           end
+         end
+  end.
+
+Fixpoint utf8_lex_loop (eat : bool) (skip : nat) (rest : bytes) : list utf8_tok :=
+  match rest with
+  | [] => []
+  | _ :: r =>
+    match skip with
+    | S k => utf8_lex_loop eat k r
+    | O => let '(t, span) := utf8_lex1 eat rest in
+           match t with UT_trunc => [t] | _ => t :: utf8_lex_loop eat (span - 1) r end
+    end
+  end.
+Definition utf8_lex (eat : bool) (s : bytes) : list utf8_tok := utf8_lex_loop eat 0 s.
+
+Definition utf8_is_seq (t : utf8_tok) : bool := match t with UT_seq _ _ => true | _ => false end.
+Definition utf8_is_bad (t : utf8_tok) : bool := match t with UT_bad => true | _ => false end.
+(* a sequence longer than its code point needs *)
+Definition utf8_is_overlong (t : utf8_tok) : bool := match t with UT_seq n cp => utf8_overlong n cp | _ => false end.
+(* half-width / full-width forms: the decoder tests U+FF00..U+FFEF, the validator U+FF00..U+FFFF *)
+Definition utf8_is_halffull (dec : bool) (t : utf8_tok) : bool :=
+  match t with
+  | UT_seq _ cp => if dec then (65280 <=? cp) && (cp <=? 65519) else (65279 <? cp) && (cp <? 65536)
+  | _ => false
+  end.
+
+Definition utf8_tok_flags (dec : bool) (t : utf8_tok) : N :=
+  match t with
+  | UT_seq _ _ => N.lor (pth_fl (utf8_is_overlong t) c_HTP_PATH_UTF8_OVERLONG)
+                        (pth_fl (utf8_is_halffull dec t) c_HTP_PATH_HALF_FULL_RANGE)
+  | UT_bad => c_HTP_PATH_UTF8_INVALID
+  | _ => 0
+  end.
+(* UTF8_VALID: at least one multi-byte sequence and nothing invalid *)
+Definition utf8_spec_flags (dec : bool) (toks : list utf8_tok) : N :=
+  N.lor (pth_lor_all (map (utf8_tok_flags dec) toks))
+        (pth_fl (existsb utf8_is_seq toks && negb (existsb utf8_is_bad toks)) c_HTP_PATH_UTF8_VALID).
+
+(* what the decoder writes for a token: the byte, the best-fit byte of the code point, the replacement byte *)
+Definition utf8_interp (c : dcfg) (t : utf8_tok) : bytes :=
+  match t with
+  | UT_ascii b => [b]
+  | UT_seq _ cp => [utf8_bestfit_codepoint c cp]
+  | UT_bad => [d_replacement c]
+  | UT_trunc => []
+  end.
+Definition utf8_spec_decode (c : dcfg) (s : bytes) : bytes * N :=
+  let toks := utf8_lex false s in (flat_map (utf8_interp c) toks, utf8_spec_flags true toks).
+Definition utf8_spec_validate (s : bytes) : N := utf8_spec_flags false (utf8_lex true s).
